@@ -374,7 +374,10 @@ func typeStringModel(px *pathCtx, x iface) string {
 		return "<nil>"
 	}
 	if a, ok := isVAbs(x); ok {
-		if _, s := a[0].(sym); s {
+		if sv, ok := a[0].(sym); ok {
+			if v, known := px.q.eval(sv.t); known {
+				return fmt.Sprintf("T%d", signExt(v, sv.t.width))
+			}
 			return "T?"
 		}
 		return fmt.Sprintf("T%d", asInt64(a[0]))
